@@ -1377,6 +1377,7 @@ class ProgramData:
 
         input_filename = None
         program_output_name = None
+        output_name_given = False
 
         optimize_level = 1
         flag_overrides = {}
@@ -1392,10 +1393,12 @@ class ProgramData:
                     if input_filename is not None:
                         raise RuntimeError("Program filename specified multiple times")
                     input_filename = option
-                    program_output_name = os.path.splitext(os.path.basename(input_filename))[0]
-                    program_output_name = "".join(x if (
-                        x in string.ascii_letters or x == '_' or (i > 0 and x in string.digits)
-                    ) else '_' for i, x in enumerate(program_output_name))
+                    if not output_name_given:
+                        # only derive the output name from the input file if -o/--output has not already given one
+                        program_output_name = os.path.splitext(os.path.basename(input_filename))[0]
+                        program_output_name = "".join(x if (
+                            x in string.ascii_letters or x == '_' or (i > 0 and x in string.digits)
+                        ) else '_' for i, x in enumerate(program_output_name))
                     continue
                 elif option[1] == "-":
                     option_name = option[2:]
@@ -1413,6 +1416,7 @@ class ProgramData:
                 if "." in option_value:
                     raise RuntimeError("Program output should not contain an extension")
                 program_output_name = option_value
+                output_name_given = True
             elif option_name == "O":
                 try:
                     optimize_level = int(option_value)
